@@ -228,6 +228,27 @@ def run(ctx, res):
                             note="a backquote substitution that does not plan disturbs its neighbours")
         res.sample({"layer": "L1", "input": repr(cases[1][0]).replace(work, "W"), "model": m1[1].replace(work, "W"),
                     "impl": i1[1].replace(work, "W")})
+        # ------------------------------------------------------------ L1g: token LISTS (index buffers of both passes)
+        c0 = "%s %s" % (csub, files[0])
+        kinds = [(("", "a$(%s)b" % c0), ("", "aabcb")), (('"', "$(%s)" % c0), ('"', "abc")), (("'", "$(%s)" % c0), None),
+                 (("\\", "$(%s)" % c0), None), (("`", c0), ("`", "abc")), (("", "plain"), None), (("", "p`%s`q" % c0), ("", "pabcq"))]
+        gl = [list(t) for n in (2, 3) for t in itertools.product(kinds, repeat=n)]
+        wg = "R" + c0 + "\x1d" + OUTS[0]
+        lgl = [C.case("cs", wg, "12", X.toks_field([k for k, _ in t])) for t in gl]
+        pgl = C.write_cases("c11_l1g.txt", lgl)
+        mgl = C.run_model(ctx.model["C11"], pgl)
+        igl = C.run_impl(ctx.bins["c11"], pgl, len(lgl), shards=min(C.NCPU, 8), timeout=600)
+        res.count("L1g_token_lists", len(lgl))
+        for t, a, b in zip(gl, mgl, igl):
+            want = "[" + ",".join('("%s","%s")' % (C.enc((w or k)[0]), C.enc((w or k)[1])) for k, w in t) + "]"
+            a = a.split(" calls=")[0]
+            if b != want:
+                violate(kind="oracle", layer="L1g", input=repr([k for k, _ in t]).replace(work, "W"), expected=want.replace(work, "W"),
+                        observed=(b or "").replace(work, "W"), model=a.replace(work, "W"), failing_input=True,
+                        note="in a token list each substitution must land in its own token")
+            elif a != b:
+                violate(kind="correspondence", layer="L1g", input=repr([k for k, _ in t]).replace(work, "W"), model=a, impl=b,
+                        failing_input=False, note="model and implementation disagree on a token list")
         # ------------------------------------------------------------ L1x: the whole do_expansion in a populated cwd
         # (pass order: filename expansion runs BEFORE command substitution, so an output holding * is inserted
         # literally even when files in the cwd match it)
